@@ -415,9 +415,23 @@ func (x *Exec) contractCall(callee *types.Func, d *Decl, args []Value, st *State
 		res = t
 		rvals = t.Vs
 	}
+	// ghost variables of the callee are unknown to the caller: fresh values
+	var gvals []Value
+	for _, c := range d.Clauses {
+		if c.Kind == "ghost" {
+			switch c.SplitHi {
+			case "int":
+				gvals = append(gvals, IntV{freshVar("g_"+c.SplitLo, SInt)})
+			case "bool":
+				gvals = append(gvals, BoolV{freshVar("g_"+c.SplitLo, SBool)})
+			default:
+				gvals = append(gvals, FloatV{freshVar("g_"+c.SplitLo, SReal)})
+			}
+		}
+	}
 	for _, c := range d.Clauses {
 		if c.Kind == "ensures" {
-			t := x.evalClause(pk, c, append(append([]Value{}, cargs...), rvals...), st)
+			t := x.evalClause(pk, c, append(append(append([]Value{}, cargs...), gvals...), rvals...), st)
 			st.assume(t)
 		}
 	}
